@@ -169,6 +169,23 @@ Proof.
   all: reflexivity.
 Qed.
 
+(* ---- the client puts TLS_FALLBACK_SCSV on the wire whenever it is requested ---------------- *)
+Lemma scsv_sent ver rand fsid real session exts :
+  memZ FALLBACK_SCSV (ch_suites (client_first_hello ver rand fsid real true session exts)) = true.
+Proof.
+  unfold client_first_hello, client_hello_suites, memZ. cbn [ch_suites].
+  apply existsb_exists. exists FALLBACK_SCSV. split; [|apply Z.eqb_refl].
+  right. apply in_or_app. right. left. reflexivity.
+Qed.
+
+Lemma scsv_not_sent_unrequested ver rand fsid real session exts :
+  memZ FALLBACK_SCSV real = false ->
+  memZ FALLBACK_SCSV (ch_suites (client_first_hello ver rand fsid real false session exts)) = false.
+Proof.
+  unfold client_first_hello, client_hello_suites, memZ. cbn [ch_suites existsb]. intros H.
+  rewrite app_nil_r. rewrite H. reflexivity.
+Qed.
+
 Local Arguments app : simpl never.
 
 Section Ideal.
@@ -563,5 +580,55 @@ Section Ideal.
       + rewrite E. exact B.
       + apply hrr_second_ok_basic in E. destruct E as [_ [_ [_ [Hs _]]]].
         unfold scsv_hit in *. rewrite <- Hs. exact B.
+  Qed.
+
+  (* ---- fallback retries are refused ---------------------------------------------------- *)
+  Lemma run12_server_hello a1 a2 a3 a4 s :
+    o_s (R12 a1 a2 a3 a4) = Some s -> get_ch (a1 [MCH c_hello]) = Some (e_ch s).
+  Proof. unfold run12. cbv zeta. intros Hs. repeat brk Hs. all: injection Hs as <-; cbn [e_ch]; first [assumption|reflexivity]. Qed.
+
+  Lemma run12r_server_hello a1 a2 a3 s :
+    o_s (R12r a1 a2 a3) = Some s -> get_ch (a1 [MCH c_hello]) = Some (e_ch s).
+  Proof. unfold run12r. cbv zeta. intros Hs. repeat brk Hs. all: injection Hs as <-; cbn [e_ch]; first [assumption|reflexivity]. Qed.
+
+  Lemma scsv_hit_true v c : v < smax -> memZ FALLBACK_SCSV (ch_suites c) = true -> scsv_hit smax v c = true.
+  Proof. intros Hv Hm. unfold scsv_hit. rewrite Hm. destruct (v <? smax) eqn:E; [reflexivity|lia]. Qed.
+
+  (* no hypothesis on the primitives: the hello reaches the server as sent *)
+  Lemma fallback_refused ver rand fsid real session exts v :
+    c_hello = client_first_hello ver rand fsid real true session exts ->
+    sel_version smin smax c_hello = SelOk v -> v < smax ->
+    (forall a1 a2 a3 a4, get_ch (a1 [MCH c_hello]) = Some c_hello -> o_s (R12 a1 a2 a3 a4) = None) /\
+    (forall a1 a2 a3, get_ch (a1 [MCH c_hello]) = Some c_hello -> o_s (R12r a1 a2 a3) = None).
+  Proof.
+    intros Hc Hsel Hv.
+    assert (Hm : memZ FALLBACK_SCSV (ch_suites c_hello) = true) by (rewrite Hc; apply scsv_sent).
+    split; intros.
+    - destruct (o_s (R12 a1 a2 a3 a4)) as [s|] eqn:E; [|reflexivity].
+      pose proof (run12_server_hello _ _ _ _ _ E) as G. rewrite H in G. injection G as G.
+      destruct (run12_server _ _ _ _ _ E) as [v' [sh0 [rest [A [B _]]]]]. rewrite <- G in A, B.
+      rewrite Hsel in A. injection A as <-. rewrite (scsv_hit_true _ _ Hv Hm) in B. discriminate B.
+    - destruct (o_s (R12r a1 a2 a3)) as [s|] eqn:E; [|reflexivity].
+      pose proof (run12r_server_hello _ _ _ _ E) as G. rewrite H in G. injection G as G.
+      destruct (run12r_server _ _ _ _ E) as [v' [sh0 [k [A [B _]]]]]. rewrite <- G in A, B.
+      rewrite Hsel in A. injection A as <-. rewrite (scsv_hit_true _ _ Hv Hm) in B. discriminate B.
+  Qed.
+
+  (* any attacker, idealised primitives: the two endpoints never both complete *)
+  Lemma fallback_refused_ideal ver rand fsid real session exts v :
+    c_hello = client_first_hello ver rand fsid real true session exts ->
+    sel_version smin smax c_hello = SelOk v -> v < smax ->
+    (forall a1 a2 a3 a4 c s, o_c (R12 a1 a2 a3 a4) = Some c -> o_s (R12 a1 a2 a3 a4) = Some s ->
+       UNF (R12 a1 a2 a3 a4) -> False) /\
+    (forall a1 a2 a3 c s, o_c (R12r a1 a2 a3) = Some c -> o_s (R12r a1 a2 a3) = Some s ->
+       UNF (R12r a1 a2 a3) -> False).
+  Proof.
+    intros Hc Hsel Hv.
+    assert (Hm : memZ FALLBACK_SCSV (ch_suites c_hello) = true) by (rewrite Hc; apply scsv_sent).
+    split; intros.
+    - destruct (run12_no_downgrade _ _ _ _ _ _ H H0 H1) as [v' [sh0 [rest [A [B _]]]]].
+      rewrite Hsel in A. injection A as <-. rewrite (scsv_hit_true _ _ Hv Hm) in B. discriminate B.
+    - destruct (run12r_no_downgrade _ _ _ _ _ H H0 H1) as [v' [sh0 [k [A [B _]]]]].
+      rewrite Hsel in A. injection A as <-. rewrite (scsv_hit_true _ _ Hv Hm) in B. discriminate B.
   Qed.
 End Ideal.
